@@ -217,32 +217,82 @@ theorem gtf_lazy_eq_owned {F : Type} (ff : FloatFmt F) (line : Bytes) (r : Recor
       transpose (parseScore ff f.score) = .ok r.score ∧ Gtf.parseStrand f.strand = .ok r.strand ∧
       transpose (parsePhase f.phase) = .ok r.phase ∧
       ∃ as, Gtf.parseAttrs f.attrs = .ok as ∧ collectAttrs as = r.attrs := by
-  unfold Gtf.readRecord at h
+  unfold Gtf.readRecord Gtf.tryNew at h
   cases hb : bounds line with
   | error e => simp [hb, bind, Except.bind] at h
   | ok f =>
-    cases h1 : parsePosition f.start with
-    | error e => simp [hb, h1, bind, Except.bind] at h
-    | ok s =>
-      cases h2 : parsePosition f.end_ with
-      | error e => simp [hb, h1, h2, bind, Except.bind] at h
-      | ok e =>
-        cases h3 : transpose (parseScore ff f.score) with
-        | error e => simp [hb, h1, h2, h3, bind, Except.bind] at h
-        | ok sc =>
-          cases h4 : Gtf.parseStrand f.strand with
-          | error e => simp [hb, h1, h2, h3, h4, bind, Except.bind] at h
-          | ok st =>
-            cases h5 : transpose (parsePhase f.phase) with
-            | error e => simp [hb, h1, h2, h3, h4, h5, bind, Except.bind] at h
-            | ok ph =>
-              cases h6 : Gtf.parseAttrs f.attrs with
-              | error e => simp [hb, h1, h2, h3, h4, h5, h6, bind, Except.bind] at h
-              | ok as =>
+    cases h6 : Gtf.parseAttrs f.attrs with
+    | error e => simp [hb, h6, bind, Except.bind] at h
+    | ok as =>
+      cases h1 : parsePosition f.start with
+      | error e => simp [hb, h6, h1, bind, Except.bind, pure, Except.pure] at h
+      | ok s =>
+        cases h2 : parsePosition f.end_ with
+        | error e => simp [hb, h6, h1, h2, bind, Except.bind, pure, Except.pure] at h
+        | ok e =>
+          cases h3 : transpose (parseScore ff f.score) with
+          | error e => simp [hb, h6, h1, h2, h3, bind, Except.bind, pure, Except.pure] at h
+          | ok sc =>
+            cases h4 : Gtf.parseStrand f.strand with
+            | error e => simp [hb, h6, h1, h2, h3, h4, bind, Except.bind, pure, Except.pure] at h
+            | ok st =>
+              cases h5 : transpose (parsePhase f.phase) with
+              | error e => simp [hb, h6, h1, h2, h3, h4, h5, bind, Except.bind, pure, Except.pure] at h
+              | ok ph =>
                 simp only [hb, h1, h2, h3, h4, h5, h6, bind, Except.bind, pure, Except.pure,
                   Except.ok.injEq] at h
                 subst h
                 exact ⟨f, rfl, rfl, rfl, rfl, h1, h2, h3, h4, h5, as, h6, rfl⟩
+
+/-- GTF: reading a line never reaches the `unwrap` in the trait method `attributes()`: a malformed
+attribute column is an error of the line (`Record::try_new` parses the column once), whatever the
+line holds. -/
+theorem gtf_read_never_panics {F : Type} (ff : FloatFmt F) (line : Bytes) :
+    Gtf.readRecord ff line ≠ .error .panic := by
+  have hpos := Gtf.parsePosition_ne_panic
+  have hscore := Gtf.parseScore_ne_panic ff
+  have hphase := Gtf.parsePhase_ne_panic
+  have hb := Gtf.bounds_ne_panic line
+  have ha := Gtf.parseAttrs_ne_panic
+  unfold Gtf.readRecord Gtf.tryNew
+  cases hb' : bounds line with
+  | error e =>
+    simp only [bind, Except.bind]
+    intro h; injection h with h; subst h; exact hb hb'
+  | ok f =>
+    cases h6 : Gtf.parseAttrs f.attrs with
+    | error e =>
+      simp only [bind, Except.bind, h6]
+      intro h; injection h with h; subst h; exact ha _ h6
+    | ok as =>
+      cases h1 : parsePosition f.start with
+      | error e =>
+        simp only [bind, Except.bind, pure, Except.pure, h6, h1]
+        intro h; injection h with h; subst h; exact hpos _ h1
+      | ok s =>
+        cases h2 : parsePosition f.end_ with
+        | error e =>
+          simp only [bind, Except.bind, pure, Except.pure, h6, h1, h2]
+          intro h; injection h with h; subst h; exact hpos _ h2
+        | ok e =>
+          cases h3 : transpose (parseScore ff f.score) with
+          | error e =>
+            simp only [bind, Except.bind, pure, Except.pure, h6, h1, h2, h3]
+            intro h; injection h with h; subst h; exact hscore _ h3
+          | ok sc =>
+            cases h4 : Gtf.parseStrand f.strand with
+            | error e =>
+              simp only [bind, Except.bind, pure, Except.pure, h6, h1, h2, h3, h4]
+              intro h; injection h with h; subst h
+              unfold Gtf.parseStrand at h4
+              repeat' split at h4
+              all_goals cases h4
+            | ok st =>
+              cases h5 : transpose (parsePhase f.phase) with
+              | error e =>
+                simp only [bind, Except.bind, pure, Except.pure, h6, h1, h2, h3, h4, h5]
+                intro h; injection h with h; subst h; exact hphase _ h5
+              | ok ph => simp [bind, Except.bind, pure, Except.pure, h6, h1, h2, h3, h4, h5]
 
 /-- BED: the owned record holds exactly the values of the accessors over the flat buffer and its
 bounds index (`name`, `score`, `strand` from N = 4, 5, 6 on), optional columns in order -/
